@@ -8,7 +8,8 @@ from mc.fingerprint import fp
 ID = 'C10'
 LEVEL = 'model_checking'
 INCLUDE = spaces.C02_SIX + ['n_geos_max', 'n_designs']
-RULE = ('Engine B: for every input of DEV(3,d) u DEV(4,d) (d = 1 quick, 2 thorough; complete deviation levels), '
+RULE = ('Engine B: for every input of DEV(3,d) u DEV(4,d) (d = 1 quick, 2 thorough; complete deviation levels) and DEV(4,1) x 3 '
+        'prior uses of the SAME data object by another matched-markets object (non-initial state; fresh reference built on fresh data), '
         'explicit-state BFS to closure over a real TBRMatchedMarkets object. Alphabet (15 ops): geos_over_budget, '
         'geos_too_large, geos_must_include, geos_within_constraints, geo_assignments, treatment_group_size_range, '
         'count_max_designs, listings of treatment_group_generator(1|2) and control_group_generator({0}), '
@@ -16,8 +17,9 @@ RULE = ('Engine B: for every input of DEV(3,d) u DEV(4,d) (d = 1 quick, 2 thorou
         'fingerprint of every attribute of the object graph (frames/arrays byte-exact, heap lists in layout order) '
         '+ model (answer of the most recent search). On every transition: the answer (value or exception type) equals '
         'the answer of the same call on a freshly built object (search_results: the return value of the most recent '
-        'search); dataclasses.asdict(parameters) equals its initial value. Plus one linear run per input on un-copied '
-        'objects checking that the caller\'s frame, eligibility frame and parameter object are unmodified. '
+        'search); dataclasses.asdict(parameters) equals its initial value. Plus one long linear history per input on ONE live, '
+        'never-copied object (all 15 operations in order, then in reverse order): answers against the fresh object, and the '
+        'caller\'s frame, eligibility frame and parameter object unmodified after every call. '
         'evaluations = transitions, distinct_nontrivial = distinct (input, state) pairs reached.')
 ASSUMPTIONS = ['copy.deepcopy of the matched-markets object is faithful (self-checked per input against the fingerprint)',
                'answers are compared through a canonical form: designs as (sorted T, sorted C, score, diag.x, diag.y)']
@@ -72,6 +74,10 @@ def cases(tier, seed):
     for p in ps:
         for c in spaces.dev_configs(p, d, INCLUDE, base_kw={'n_designs': 3}, k_values=(1,)):
             out.append(c)
+    p4 = {'name': 'B', 'G': 4, 'T': 12}
+    for c in spaces.dev_configs(p4, 1, INCLUDE, base_kw={'n_designs': 3}, k_values=(), with_matrix_level=False):
+        for pr in spaces.PRIORS:      # non-initial state: the data object already served another matched-markets object
+            out.append(dict(c, prior=pr, deviations=c['deviations'] + 1))
     if tier != 'thorough':   # a few hand-picked 2-deviation inputs that exercise fixed geos + unspecified ranges
         p = {'name': 'B', 'G': 4, 'T': 12}
         for rows, kw in [([[1, 1, 1], [1, 1, 0], [1, 1, 1], [1, 0, 1]], {'geo_ratio_tolerance': 1.0}),
@@ -92,8 +98,9 @@ def run_case(case):
     if canon(copy.deepcopy(m0)) != canon(m0):
         raise RuntimeError('deepcopy of the matched-markets object is not faithful')
     fresh = {}
+    fresh_case = {k: v for k, v in case.items() if k != 'prior'}
     for op in OPNAMES:
-        m, _ = sc.build_mm(case)
+        m, _ = sc.build_mm(fresh_case)
         fresh[op] = call(m, op)
 
     def step(m, model, op):
@@ -131,9 +138,20 @@ def run_case(case):
     from matched_markets.methodology.tbrmatchedmarkets import TBRMatchedMarkets
     try:
         mm = TBRMatchedMarkets(TBRMMData(df, 'sales', ge), par)
-        for op in ('exhaustive_search', 'search_results', 'greedy_search', 'search_results', 'count_max_designs'):
+        last = None
+        # one long history on ONE live, never-copied object (identity-keyed caches stay warm): every operation once in
+        # alphabet order, then once in reverse order; answers against the fresh object / the last search
+        for op in OPNAMES + OPNAMES[::-1]:
             par_pre = dataclasses.asdict(par)
-            call(mm, op)
+            got = call(mm, op)
+            exp = fresh[op]
+            if op == 'search_results' and last is not None:
+                exp = last
+            if got != exp and not case.get('prior'):
+                viol.append({'key': 'C10:live-object-history:' + op, 'msg': 'on a never-copied object, %s after a long history answers %s, expected %s' % (
+                    op, _short(got), _short(exp))})
+            if op in SEARCHES and got[0] == 'val':
+                last = got
             if not df.equals(df_before):
                 viol.append({'key': 'C10:input-frame-modified-by:' + op, 'msg': 'the caller\'s data frame was modified'})
             if ge is not None and not ge.data.equals(ge_before):
